@@ -132,10 +132,22 @@ def run(ctx):
         b = f.body
         shr = [c for c in buf_ops(f) if c.is_("truncate", "clear")]
         ext = [c for c in buf_ops(f) if c.is_("extend_from_slice")]
+        # `buf.resize(4, 0)` on the just-cleared buffer is the same four zero bytes
+        rsz = [c for c in buf_ops(f) if c.is_("Vec<T, A>::resize", "resize") and len(c.args) == 3 and const_int(arg_syms(c)[2]) == 0 and (const_int(arg_syms(c)[1]) == 4 or (sym_is_call(strip_sym(arg_syms(c)[1]), "size_of") and any(c2.t.get("gargs") in (["u32"], ["i32"], ["[u8; 4]"]) for c2 in c.fn.body.calls() if (c2.resolved or "").endswith("mem::size_of") and c.fn.body.dominates(c2.bb, c.bb))))]
+        resized = False
+        if len(shr) == 1 and not ext and len(rsz) == 1 and shr[0].bb != rsz[0].bb and rsz[0].bb in b.reachable_after(shr[0].bb) and not [c for c in buf_ops(f) if c not in shr and c not in rsz and c.bb in b.reachable_after(shr[0].bb) and rsz[0].bb in b.reachable_after(c.bb)]:
+            ext, resized = rsz, True
         ok = len(shr) == 1 and len(ext) == 1 and b.dominates(shr[0].bb, ext[0].bb)
         if ok:
             g = gates(b, ext[0].bb)
-            flag_edges = [(dd, lab) for dd, lab in g if "with_length_prefix" in repr(dd)]
+            flag_edges = []
+            for dd, lab in g:
+                if "with_length_prefix" not in repr(dd) or not isinstance(lab, bool):
+                    continue
+                d_ = strip_sym(dd)
+                while isinstance(d_, tuple) and d_ and d_[0] == "un" and d_[1] == "Not":
+                    d_, lab = strip_sym(d_[2]), not lab  # `if !flag { return }`
+                flag_edges.append((d_, lab))
             ok = any(lab is True for dd, lab in flag_edges)
             if not flag_edges:
                 # the placeholder is chosen first and appended unconditionally:
@@ -158,7 +170,10 @@ def run(ctx):
             # no return on the prefixed edge without the extend
             for bb, dd, t_t, f_t in bool_switches(b):
                 if "with_length_prefix" in repr(dd):
-                    ok = ok and not any(b.term(x)["k"] == "return" for x in b.reachable(t_t, cut={ext[0].bb}))
+                    d_, neg_ = strip_sym(dd), False
+                    while isinstance(d_, tuple) and d_ and d_[0] == "un" and d_[1] == "Not":
+                        d_, neg_ = strip_sym(d_[2]), not neg_
+                    ok = ok and not any(b.term(x)["k"] == "return" for x in b.reachable(f_t if neg_ else t_t, cut={ext[0].bb}))
         chk.ob("C09.a", f"{f.path} [placeholder after clear]", ok, "dropping the drained payloads clears the buffer and, in length-prefixed mode, re-adds the placeholder" if ok else "Drop for Payloads clears the writer's buffer without restoring the length-prefix placeholder: the first payload of the next flush cycle loses 4 bytes and its length", f.loc())
 
     # ---------------- C09.b / C09.d on the histogram writer
@@ -183,7 +198,16 @@ def run(ctx):
                 return any(pred(strip_sym(t)) for t in min_sym)
             name_ok = has(lambda t: sym_is_call(t, "len") and "Key::name" in repr(t) or (sym_is_call(t, "len") and sym_is_call(strip_sym(t[2][0]), "Key::name")))
             trailer_ok = has(lambda t: sym_is_call(t, "len") and "trailer_buf" in repr(t))
-            consts = sum(const_int(t) or 0 for t in min_sym if const_int(t) is not None)
+            def _array_len(t):
+                # `[b'|', metric_type].len()`: the length of a fixed array that is itself a written segment
+                t = strip_sym(t)
+                if sym_is_call(t, "len") and len(t[2]) == 1:
+                    a_ = strip_sym(t[2][0])
+                    if isinstance(a_, tuple) and a_ and a_[0] == "agg" and a_[1] == "array":
+                        return len(a_[3])
+                return None
+
+            consts = sum(const_int(t) or 0 for t in min_sym if const_int(t) is not None) + sum(_array_len(t) or 0 for t in min_sym)
             # prefix term: map_or(prefix, 0, |p| p.len() + 1) or an if-let phi
             pre = [t for t in min_sym if is_param(_root(t), 5) or "('arg', 5" in repr(t)]
             pre_ok = False
